@@ -662,6 +662,7 @@ func runProperty(prop, tier string) int {
 		tt := NewTermTable()
 		w := &Worker{eng: eng, tt: tt}
 		w.sv = NewSolver(tt, eng.timeoutMs, "")
+		forcedOut := map[string][]string{}
 		for _, f := range selftests {
 			res := w.runPath(f, nil, false)
 			o := res.out
@@ -672,8 +673,23 @@ func runProperty(prop, tier string) int {
 			for fn := range res.fns {
 				rs.fns[fn.String()] = true
 			}
+			// second run with every stdlib model forced onto its symbolic path
+			forceModels = true
+			res2 := w.runPath(f, nil, false)
+			forceModels = false
+			o2 := res2.out
+			if res2.status != "ok" {
+				o2 = append(o2, "<status="+res2.status+" "+res2.msg+">")
+			}
+			forcedOut[f.Name()] = o2
 		}
 		w.sv.Close()
+		for name, o := range forcedOut {
+			if strings.Join(o, "\x00") != strings.Join(engOut[name], "\x00") {
+				mismatch = append(mismatch, fmt.Sprintf("selftest %s: stdlib models disagree with the native functions", name))
+				fmt.Printf("MODEL-MISMATCH %s\n native-call run: %q\n model run:       %q\n", name, engOut[name], o)
+			}
+		}
 		for rel := range stByRel {
 			out, err := eng.nativeRun(rel, allByRel[rel], []string{"VERIF_MODE=selftest", "VERIF_TIER=" + tier})
 			nat := parseSelftestOutput(out)
